@@ -295,6 +295,28 @@ def _check_luba_dispatch(run, world, folder, mod, c):
             want = LUBA_EVENT_DELIVERS[q]
             nsites += 1
             d = path_conds(cfg, n, tree, what="R-FSM-DISPATCH")
+            # of the message's bytes only the status byte decides whether an
+            # event is delivered: a test of another byte (the time tick, the
+            # DALI line, a data byte) withholds well-formed events
+            other = set()
+            for conj in d:
+                for a in conj:
+                    if a[0] != "p" or a[1] not in tests:
+                        continue
+                    r_ = astq.resolve(fn, tests[a[1]], defs=defs)
+                    for x_ in ast.walk(r_):
+                        if isinstance(x_, ast.Subscript) and unparse(
+                                x_.value) == param and isinstance(
+                                    x_.slice, ast.Constant) and type(
+                                        x_.slice.value) is int and \
+                                unparse(x_) != status:
+                            other.add(unparse(x_))
+            run.ob("R-FSM-DISPATCH", "%s#%s[only the status byte decides]"
+                   % (P, q), not other,
+                   "whether self.%s is fed depends on %s of the message, "
+                   "not only on its status byte: checksum-valid events with "
+                   "other values there deliver nothing" % (q, sorted(other)),
+                   where(mod, n))
             types = set()
             sbytes = set()
             decided = False
